@@ -177,6 +177,11 @@ func (c *Ctx) callStatic(st *State, x *ast.CallExpr, fn *types.Func, recvExpr as
 		fn = fn.Origin()
 		name = fullName(fn)
 	}
+	if strings.HasPrefix(name, "sync.") {
+		if h, ok := prelude[name]; ok {
+			return h(c, st, x, nil)
+		}
+	}
 	// receiver
 	var recv Val
 	if recvExpr != nil {
